@@ -19,7 +19,7 @@ static void install(C& c, S& s)
     for (size_t i = 1; i <= HCAP; ++i)
     {
         auto& e   = L.m_pool[i].value;
-        e.m_value = s.u64();
+        e.m_value = VAL_T(s.u64());
         KeyedIt it;
         it.i     = s.u64();
         it.m     = s.b() ? &M : nullptr;
@@ -75,7 +75,7 @@ static void alpha(C& c, Abs& a)
         if (e.m_keyed_position.has_value())
         {
             a.k[a.n] = M.m_pool[(*e.m_keyed_position).i].kv.first;
-            a.v[a.n] = e.m_value;
+            a.v[a.n] = val_u(e.m_value);
             ++a.n;
         }
         cur = L.m_pool[cur].next;
